@@ -41,7 +41,8 @@ class ScaleSim(Sim):
               "untracked_no_grad_loop", "untracked_nograd_operands_loop", "untracked_interleaved_with_tracked", "work_scaling_measured",
               "gc_during_build", "chain_with_view_ops", "same_operand_twice_in_chain", "chain_two_sweeps", "chain_retain_ctx", "chain_retain_every",
               "untracked_body_mul_param_add_param", "untracked_body_functional", "untracked_body_linear", "untracked_body_views", "untracked_body_unbind", "detached_loop_bptt", "detached_loop_log", "fault_mid_deep_sweep_then_retry",
-              "unrelated_sweeps_between_deep_sweeps", "untracked_loop_inside_retain_grads", "nested_no_grad_left_by_exception_in_loop"]
+              "unrelated_sweeps_between_deep_sweeps", "untracked_loop_inside_retain_grads", "nested_no_grad_left_by_exception_in_loop",
+              "same_no_grad_object_reentered_in_loop", "tracked_value_folded_into_untracked_loop"]
     RULE = ("one run = 1-3 large scenarios (deep chain / wide fan-out / diamond ladder / untracked loop / work-scaling pair) with seeded sizes, op "
             "patterns, recursion-limit knob and gc schedule; distinct = scenario family x size bucket x recursion limit; non-trivial = every run")
     ASSUMPTIONS = ["cost is judged on deterministic work counters (line events in tensor.py, Tensor.__eq__/__hash__ calls), not on time: "
@@ -78,7 +79,8 @@ class ScaleSim(Sim):
             return {"k": "untracked", "n": rng.choice([10000, 30000, 100000]), "mode": rng.choice(["no_grad", "nograd_operands"]),
                     "body": rng.choice(["scale_add", "mul_param_add_param", "functional", "linear", "views", "unbind"]),
                     "tracked_every": rng.choice([0, 0, 2500]), "limit": kn["limit"],
-                    "retain_ctx": rng.random() < 0.3, "nested_exc_every": rng.choice([0, 0, 3000])}
+                    "retain_ctx": rng.random() < 0.3, "nested_exc_every": rng.choice([0, 0, 3000]),
+                    "fold_tracked_every": rng.choice([0, 0, 7, 500]), "reenter_same_every": rng.choice([0, 0, 1500])}
         return {"k": "work", "n": rng.choice([400, 800]), "shape": rng.choice(["chain", "ladder", "fanin", "fanout"])}
 
     def _preflight(self, st):
@@ -290,6 +292,7 @@ class ScaleSim(Sim):
         b = SG.Tensor(np.array([0.125, -0.25]), requires_grad=pg)
         W = SG.Tensor(np.array([[0.5, 0.0], [0.0, 0.25]]), requires_grad=pg)
         x = SG.Tensor(np.array([1.0, 2.0]))
+        wtr = SG.Tensor(np.array([0.25, -0.5]), requires_grad=True)      # (created before the block: a parameter of the tracked side computation)
         sg = SG.sg
 
         def step(x):
@@ -316,6 +319,9 @@ class ScaleSim(Sim):
         if ctx is not None:
             ctx.__enter__()
         nee = ev.get("nested_exc_every", 0)
+        fte = ev.get("fold_tracked_every", 0) if mode == "no_grad" else 0
+        rse = ev.get("reenter_same_every", 0) if mode == "no_grad" else 0
+        qrefs = []
         caught = []
         try:
             with quiet():
@@ -330,6 +336,24 @@ class ScaleSim(Sim):
                             caught.append(e)
                             del caught[:-2]
                         st.probes["nested_no_grad_left_by_exception_in_loop"] += 1
+                    if rse and i % rse == 3:
+                        # a helper shares the caller's no_grad object and enters it again inside the block (normal exit)
+                        with ctx:
+                            with ctx:
+                                x = step(x)
+                        st.probes["same_no_grad_object_reentered_in_loop"] += 1
+                    if fte and i % fte == 2:
+                        # a TRACKED non-leaf computed outside the block (a loss, an activation) is folded into the loop-carried value
+                        ctx.__exit__(None, None, None)
+                        q = (wtr * 1.5) + 0.5
+                        ctx.__enter__()
+                        if not q.requires_grad:
+                            st.fail("C17.untracked_keeps_history", f"step {i}: a result computed OUTSIDE the no_grad block from a parameter does not require grad")
+                        x = x * 0.5 + q * 0.125
+                        if len(qrefs) < 400 or i % 1000 < fte:
+                            qrefs.append((i, weakref.ref(q)))
+                        del q
+                        st.probes["tracked_value_folded_into_untracked_loop"] += 1
                     x = step(x)
                     if x.requires_grad:
                         st.fail("C17.untracked_keeps_history", f"step {i}: a result computed while gradients are not tracked requires grad")
@@ -358,6 +382,10 @@ class ScaleSim(Sim):
                 rctx.__exit__(None, None, None)
         del caught
         gc.collect()
+        alive = [j for j, r in qrefs[:-2] if r() is not None]
+        if alive:
+            st.fail("C17.untracked_keeps_history", f"{len(alive)} of {len(qrefs) - 2} tracked values that were folded into an untracked running value are still alive "
+                    f"after the loop (first: step {alive[0]}): the untracked results keep the graphs of past steps", alive=len(alive))
         live = sum(1 for o in gc.get_objects() if isinstance(o, SG.Tensor))
         if live - base_live > 40:
             st.fail("C17.untracked_keeps_history", f"after an untracked loop of {n} updates {live - base_live} more Tensor objects are alive than before it "
